@@ -2,11 +2,13 @@
 # Offline setup after a fresh restore: build the overlay generator and pre-build the harness
 # flavours so that later ./check calls are incremental.
 set -u
-cd /verif
+V=${VERIF_ROOT:-/verif}
+export VERIF_ROOT=$V
+cd $V
 export GOFLAGS=-mod=mod GOPROXY=off GOSUMDB=off GOTOOLCHAIN=local
-B=/verif/.build
+B=$V/.build
 mkdir -p $B/plain $B/sched $B/run evidence replays
-cat /repo/go.sum /repo/loader/go.sum 2>/dev/null | sort -u > /verif/go.sum
+cat /repo/go.sum /repo/loader/go.sum 2>/dev/null | sort -u > $V/go.sum
 go build -o $B/mkoverlay ./tools/mkoverlay || exit 1
 for f in plain sched; do
   $B/mkoverlay $f $B/$f || exit 1
